@@ -268,6 +268,16 @@ static int check_indexed(AsmContext *asm_context, struct _operand *operand)
 {
   uint8_t post_byte = operand->index_reg << 5;
 
+  // The largest offset form holds 16 bits (-32768 to 65535 is accepted, as
+  // an offset wraps around the 64K address space).
+  if ((operand->type == OPERAND_INDEX_OFFSET_PC ||
+       operand->type == OPERAND_INDEX_OFFSET_REG) &&
+      (operand->value < -32768 || operand->value > 0xffff))
+  {
+    print_error_range(asm_context, "Offset", -32768, 0xffff);
+    return -1;
+  }
+
   if (operand->type == OPERAND_INDEX_OFFSET_PC)
   {
     post_byte = 0x8c;
